@@ -69,12 +69,35 @@ def lookups(w, ev):
     return tuple(out)
 
 
+BULK = {"netlist.remove_libraries_from": "libraries", "library.remove_definitions_from": "definitions",
+        "definition.remove_ports_from": "ports", "definition.remove_cables_from": "cables",
+        "definition.remove_children_from": "children", "port.remove_pins_from": "pins", "cable.remove_wires_from": "wires",
+        "wire.disconnect_pins_from": "pins"}
+
+
 class C14Oracle(Oracle):
     def pre(self, w, ev):
+        # a bulk removal naming something that is not in the container has to be refused, whatever kind of
+        # collection (list, set, one-shot iterator, a collection built earlier) carries the names
+        self.must_refuse = None
+        base = ".".join(ev[0].split(".")[:2])
+        if base in BULK and len(ev[1]) == 2 and isinstance(ev[1][1], dict):
+            a = ev[1][1]
+            spec = a.get("list", a.get("set", a.get("gen")))
+            try:
+                items = [engine_a.ops.resolve(w, x) for x in spec] if spec is not None else list(w.held[a["held"]])
+                have = list(getattr(w[ev[1][0]], BULK[base]))
+                foreign = [x for x in items if not any(x is y or (BULK[base] == "pins" and base.startswith("wire") and x == y) for y in have)]
+                if foreign:
+                    self.must_refuse = "%d of %d named elements are not in %s" % (len(foreign), len(items), BULK[base])
+            except Exception:
+                pass
         return snapshot(w)
 
     def step(self, w, ev, outcome, token):
         if outcome[0] != "raised":
+            if getattr(self, "must_refuse", None):
+                return [("bulk-call-naming-a-stranger-accepted:" + ".".join(ev[0].split(".")[:2]), "%s accepted although %s" % (ev[0], self.must_refuse))]
             return []
         bad = []
         after = snapshot(w)
